@@ -117,6 +117,7 @@ class C01Machine(Machine):
         self.saw_incremental = False
         self.schedule_no = 0
         self.focus = []
+        self.tainted = False
         self.delimiter_given = None
         self.n_probe_checks = 0
         self.check_every = int(config.get("check_every", 1))
@@ -196,7 +197,7 @@ class C01Machine(Machine):
                         if carrier == "synonym" and not r["prefix_synonyms"]:
                             carrier = "canonical"
                         later0.append({"op": "merge_piece", "prefix": r["prefix"], "uri_prefix": u, "schedule": k,
-                                       "carrier": carrier, "pattern": rng.choice([None, None, r.get("pattern"), "^x$"]),
+                                       "carrier": carrier, "pattern": rng.choice([None, None, r.get("pattern")]),
                                        "carrier_prefix": r["prefix_synonyms"][0] if carrier == "synonym" else None,
                                        "anchor_uri": r["uri_prefix"], "into_loaded_record": True,
                                        "via": "add_prefix" if rng.random() < 0.5 else "add_record"})
@@ -227,7 +228,7 @@ class C01Machine(Machine):
                     if carrier == "synonym" and not r["prefix_synonyms"]:
                         carrier = "canonical"
                     later.append({"op": "merge_piece", "prefix": r["prefix"], "uri_prefix": u, "schedule": k,
-                                  "carrier": carrier, "pattern": rng.choice([None, None, r.get("pattern"), "^x$"]),
+                                  "carrier": carrier, "pattern": rng.choice([None, None, r.get("pattern")]),
                                   "carrier_prefix": r["prefix_synonyms"][0] if carrier == "synonym" else None,
                                   "anchor_uri": r["uri_prefix"],
                                   "via": "add_prefix" if rng.random() < 0.5 else "add_record"})
@@ -337,6 +338,18 @@ class C01Machine(Machine):
             return self._apply(op)
         except Violation:
             raise
+        except ValueError as e:
+            # the library REFUSED a delivery (a ValueError). Which submissions are accepted is C05's
+            # business, and a stricter library is entitled to refuse; for C01 a refused delivery must simply
+            # leave no trace, and the schedule is no longer comparable with the others
+            self.event("delivery_refused")
+            self.tainted = True
+            if self.conv is not None and op.get("op") in ("add_record", "add_prefix", "merge_piece"):
+                # what was delivered before the refusal is still exactly what is registered
+                self.focus = []
+                self.dirty = False
+                self._check("refused " + str(op.get("op")))
+            return {"refused": type(e).__name__}
         except Exception as e:  # noqa: BLE001
             from ..env import HarnessError
             if isinstance(e, HarnessError):
@@ -359,6 +372,9 @@ class C01Machine(Machine):
                 self.conv = None
             self.probe("confluence_group")
             ref = self.finals[0] if self.finals else None
+            if self.tainted:
+                self.event("confluence_skipped_after_refusal")
+                return {"confluence": "skipped"}
             for n, f in enumerate(self.finals[1:], start=1):
                 a, b = ref["answers"], f["answers"]
                 if ref["delimiter"] != f["delimiter"]:
@@ -437,7 +453,18 @@ class C01Machine(Machine):
             delim = op.get("delimiter", ":")
             recs = op["records"]
             if via == "epm":
-                self.conv = Converter.from_extended_prefix_map([dict(r) for r in recs], delimiter=delim)
+                items = []
+                for n_, r in enumerate(recs):
+                    shape = (n_ + len(recs) + self.steps) % 3
+                    if shape == 0:
+                        items.append(Record(**r))                                   # a Record object
+                    elif shape == 1:
+                        items.append({k: v for k, v in r.items() if v not in ([], None)})   # optional keys left out
+                    else:
+                        items.append(dict(r))
+                self.conv = Converter.from_extended_prefix_map(
+                    tokens.as_container(op.get("container", "list"), items), delimiter=delim)
+                self.probe("epm_given_as_" + op.get("container", "list"))
             elif via == "priority":
                 self.conv = Converter.from_priority_prefix_map(
                     {r["prefix"]: [r["uri_prefix"], *r["uri_prefix_synonyms"]] for r in recs}, delimiter=delim)
